@@ -344,12 +344,14 @@ def sys_requests(sc, sessions_index=None):
     return reqs, sess
 
 
-def sys_compare(sc, commits_observed, run_driver):
+def sys_compare(sc, commits_observed, run_driver, skip_paths=()):
     """commits_observed: list (one per non-base commit, in order) of {path: {line: hash}}.
     Returns (n_compared, disagreements)."""
     reqs, sess = sys_requests(sc)
     inv = {v: hash_of(k) for k, v in sess.items()}
-    paths = sorted(reqs)
+    paths = sorted(p for p in reqs if p not in skip_paths)
+    if not paths:
+        return 0, []
     resps = run_driver([reqs[p] for p in paths])
     bad, n = [], 0
     for p, r in zip(paths, resps):
